@@ -1,5 +1,5 @@
 CONSTANTS
-  BodyLens = {0, 1, 2, 3, 4, 5, 6, 7, 8, 12, 16, 20, 21, 24, 25, 28, 32}
+  BodyLens = {0, 1, 2, 3, 4, 5, 6, 7, 8, 12, 16, 20, 21, 24, 25, 28, 32, 516, 600}
   Tails = {0, 4, 8, 20, 24, 28}
   Contexts = {"none", "uid", "unk0", "unk24"}
   Derived = FALSE
